@@ -70,3 +70,15 @@ Theorem C05_b64_alphabets_differ_only_in_62_63 :
 Proof. exact b64_alphabets_differ_only_in_62_63. Qed.
 Eval compute in "PA:C05_b64_alphabets_differ_only_in_62_63"%string.
 Print Assumptions C05_b64_alphabets_differ_only_in_62_63.
+
+(** Every change to a covered member changes the hashed byte string (the digest itself then
+    differs unless SHA-256 collides — collision resistance is not a theorem). *)
+Theorem C05_covered_change_changes_preimage :
+  forall ks o o', wf_obj o -> wf_obj o' ->
+  C01.Roundtrip.ints_ok (JObj o) = true -> C01.Roundtrip.ints_ok (JObj o') = true ->
+  C01.Roundtrip.jdepth (JObj o) < 128 -> C01.Roundtrip.jdepth (JObj o') < 128 ->
+  remove_keys ks o <> remove_keys ks o' ->
+  canonical_without ks o <> canonical_without ks o'.
+Proof. exact covered_change_changes_preimage. Qed.
+Eval compute in "PA:C05_covered_change_changes_preimage"%string.
+Print Assumptions C05_covered_change_changes_preimage.
